@@ -198,3 +198,100 @@ def explore(graph: Graph, init_state, adapter: Adapter, run, *, nproc=None, budg
         "skipped_by_budget": skipped,
         "bfs_depth": depth,
     }
+
+
+# --------------------------------------------------------------------------- planned walks
+def plan_walks(graph: Graph, init_state, n, depth, seed=0, gram=3):
+    """Plan n label paths of length <= depth through the SPEC graph, greedily covering action-name
+    n-grams (so rare multi-step scenarios such as Begin -> SetBadAln -> FailedEnd -> SetAln are
+    scheduled on purpose rather than hoped for).  Planning needs no real execution."""
+    rnd = random.Random(seed)
+    seen = defaultdict(int)
+    walks = []
+    for _ in range(n):
+        cur = skey(init_state)
+        path, names = [], []
+        for _ in range(depth):
+            labs = list(graph.labels(cur))
+            if not labs:
+                break
+            rnd.shuffle(labs)
+            byname = defaultdict(list)
+            for lab in labs:
+                byname[json.loads(lab)[0]].append(lab)
+
+            def cost(name):
+                g = tuple(names[-(gram - 1):] + [name])
+                return (seen[g], seen[(name,)], rnd.random())
+
+            name = min(byname, key=cost)
+            lab = rnd.choice(byname[name])
+            names.append(name)
+            for k in range(1, gram + 1):
+                if len(names) >= k:
+                    seen[tuple(names[-k:])] += 1
+            path.append(lab)
+            cur = graph.succ[cur][lab][0][0]
+        walks.append(path)
+    return walks
+
+
+def _walk_task(job):
+    adapter, graph = _G["adapter"], _G["graph"]
+    init_key, path, variant = job
+    ctx = adapter.fresh(variant)
+    cur = init_key
+    done = 0
+    try:
+        for lab in path:
+            if lab not in graph.succ.get(cur, {}):
+                break  # the real code took another allowed successor earlier: the planned label is not enabled here
+            act, args = json.loads(lab)
+            try:
+                ret = adapter.apply(ctx, act, args)
+            except Exception as ex:
+                import traceback
+
+                return (cur, lab, "exception", done, {"exception": repr(ex), "traceback": traceback.format_exc()[-1500:], "path": path[:done]})
+            obs = adapter.project(ctx)
+            okey = skey(obs)
+            allowed = graph.succ[cur][lab]
+            nxt = None
+            for t, r, o in allowed:
+                if t == okey and adapter.ret_matches(r, ret) and adapter.obs_matches(o, ctx, ret):
+                    nxt = t
+                    break
+            if nxt is None:
+                detail = {
+                    "from": json.loads(cur), "act": act, "args": args,
+                    "allowed": [{"to": json.loads(t), "ret": r, "obs": o} for t, r, o in allowed],
+                    "observed": {"state": obs, "ret": ret if isinstance(ret, (str, int, float, bool, type(None), list, dict)) else repr(ret)},
+                    "path": [json.loads(p) for p in path[:done]], "exception": getattr(ctx, "last_exc", None),
+                    "adapter_detail": getattr(ctx, "detail", None),
+                }
+                return (cur, lab, "mismatch", done, detail)
+            cur = nxt
+            done += 1
+        return (cur, None, "ok", done, None)
+    finally:
+        adapter.cleanup(ctx)
+
+
+def run_walks(graph: Graph, init_state, adapter: Adapter, run, walks, *, nproc=None):
+    """Execute planned walks on the real code, checking every step against the spec."""
+    nproc = nproc or min(16, os.cpu_count() or 1)
+    init = skey(init_state)
+    steps = 0
+    mism = 0
+    ctxm = mp.get_context("fork")
+    with ctxm.Pool(nproc, initializer=_worker_init, initargs=(adapter, graph)) as pool:
+        jobs = [(init, w, adapter.variants[i % len(adapter.variants)]) for i, w in enumerate(walks)]
+        for cur, lab, status, done, detail in pool.imap_unordered(_walk_task, jobs, chunksize=2):
+            steps += done
+            if status != "ok":
+                mism += 1
+                detail = detail or {}
+                detail["status"] = status
+                key = adapter.finding_key(status, {"from": json.loads(cur), "label": json.loads(lab), **detail})
+                run.fail(key, detail, what=f"{status} at {lab} (planned walk, step {done + 1})")
+    return {"walks": len(walks), "steps_checked": steps, "mismatches": mism}
